@@ -11,14 +11,17 @@ LEVEL = "model_checking"
 
 def run(ctx):
     ctx.rule = ("all 6 localizers x 8 languages x relative paths of plain components (depth 1-4, with/without trailing '/', "
-                "names with spaces, dots, marker look-alikes, non-ASCII, a lone space) + the degenerate paths \"\", \"/\", "
-                "\".\", \"..\", \"m/..\": laws checked by TLC on every triple, every triple replayed against "
-                "PathLocalizer::localize and compared string-for-string with the allowed set (a panic is an outcome). "
-                "Filesystem clause: every localized call of the model alphabet on every generated state, and the same call "
+                "names with spaces, dots, marker look-alikes, non-ASCII, a lone space) + the paths without a final component \"\", \"/\", "
+                "\"//\", \".\", \"./\", \"/.\", \"..\", \"../\", \"/..\", \"m/..\", \"m/../\": laws checked by TLC on every triple, every triple replayed against "
+                "PathLocalizer::localize in BOTH harness builds (release; checked = overflow checks + debug assertions) and "
+                "compared string-for-string with the allowed set (a panic is an outcome). "
+                "Filesystem clause (both builds): every localized call of the model alphabet - incl. every operation on the "
+                "final-less paths - on every generated state, and the same call "
                 "with localized=false on the path the specification maps it to (twin, printed by TLC), both decided by TLC; a "
                 "localized call the spec rejects while accepting its twin (or that has no twin) is a violation. "
                 "Non-trivial = a triple whose result must contain a marker or must be an error; a localized filesystem call.")
     binary = ctx.build("release", "mvh_fs")
+    checked = ctx.build("checked", "mvh_fs")       # overflow checks + debug assertions: "never panics" is about both
     env = {"VERIF_TIER": ctx.tier}
     # 1. laws of the reference definition on every triple
     r = ctx.tlc("MC_Localize", "MC_Localize.cfg", env=env, workers=1)
@@ -33,22 +36,25 @@ def run(ctx):
     cases = g.tagged("G")
     if len(cases) != n[0]["triples"]:
         raise vlib.ToolError("generator printed %d cases for %d triples" % (len(cases), n[0]["triples"]))
-    cpath, opath = ctx.path("loc_cases.ndjson"), ctx.path("loc_out.ndjson")
+    cpath = ctx.path("loc_cases.ndjson")
     vlib.write_ndjson(cpath, cases)
-    ctx.harness(binary, ["localize", cpath, opath])
-    out = vlib.read_ndjson(opath)
-    summ = [o for o in out if o["kind"] == "summary"][0]
-    if summ["cases"] != len(cases):
-        raise vlib.ToolError("localize replay incomplete")
-    for o in out:
-        if o["kind"] == "mismatch":
-            c = o["case"]
-            got = o["got"]
-            ctx.violation({"dir": "spec->impl", "op": "localize", "loc": c["loc"], "lang": c["lang"], "path": o["path"],
-                           "got": ("panic " + got["panic"]) if "panic" in got else (o["got_str"] if got["ok"] else "Err"),
-                           "allowed": [bytes(a["s"]).decode("utf8", "replace") if a["ok"] else "Err" for a in c["allowed"]]},
-                          {"case": c, "got": got})
-    ctx.traces += len(cases)
+    for bname, b in (("release", binary), ("checked", checked)):
+        opath = ctx.path("loc_out_%s.ndjson" % bname)
+        ctx.harness(b, ["localize", cpath, opath])
+        out = vlib.read_ndjson(opath)
+        summ = [o for o in out if o["kind"] == "summary"][0]
+        if summ["cases"] != len(cases):
+            raise vlib.ToolError("localize replay incomplete")
+        for o in out:
+            if o["kind"] == "mismatch":
+                c = o["case"]
+                got = o["got"]
+                ctx.violation({"dir": "spec->impl", "build": bname, "op": "localize", "loc": c["loc"], "lang": c["lang"],
+                               "path": o["path"],
+                               "got": ("panic " + got["panic"]) if "panic" in got else (o["got_str"] if got["ok"] else "Err"),
+                               "allowed": [bytes(a["s"]).decode("utf8", "replace") if a["ok"] else "Err" for a in c["allowed"]]},
+                              {"case": c, "got": got, "build": bname})
+        ctx.traces += len(cases)
     ctx.nontrivial += sum(1 for c in cases if c["kind"] in ("dir", "prefix", "unsupported") or not c["plain"])
     mid = next((c for c in cases if c["kind"] == "dir" and c["depth"] == 2 and not c["t"] and c["loc"] == "FE15"), cases[len(cases) // 2])
     ctx.sample({"localize": {"loc": mid["loc"], "lang": mid["lang"], "path": bytes(mid["raw"]).decode("utf8", "replace"),
@@ -82,7 +88,7 @@ def run(ctx):
                 ctx.violation({"dir": direction, "op": "abort", "outcome": e["outcome"], "signal": e["signal"]}, {"event": e})
 
     ev, _ = fsc.run_fs(ctx, "c14", lambda e: e["loc"] and e["op"] not in fsc.TYPED_READS and not e["op"].startswith("write_"),
-                       None, profile=None, twins=True, post=post)
+                       None, profile=None, twins=True, post=post, also_checked=True)
     ctx.extra["localized_fs_calls"] = stats["localized"]
     ctx.extra["explicit_path_twins"] = stats["twins"]
     for e in ev:
@@ -100,6 +106,7 @@ def replay(ctx, rp):
     binary = ctx.build("release", "mvh_fs")
     d = rp["detail"]
     if "case" in d:
+        binary = ctx.build(d.get("build", "release"), "mvh_fs")
         cpath, opath = ctx.path("c.ndjson"), ctx.path("o.ndjson")
         vlib.write_ndjson(cpath, [d["case"]])
         ctx.harness(binary, ["localize", cpath, opath])
